@@ -12,6 +12,8 @@ package main
 //	     channel try-send, lock held).  The driving thread performs
 //	     o:v Offer (started asynchronously while the loader holds the lock: "pending", joined when the pass ends)
 //	     p Poll   t TakeWithTimeout   T Take (only when the channel is non-empty)   r non-blocking receive on GetChannel()   n Count
+//	     B a consumer thread calls Take() on the empty channel and blocks; it is joined (" take=ok v") by the step that
+//	       makes a value available (an Offer into the channel, the loader's try-send)
 //	     L let the loader take the lock and reach its first pool.Poll() ("polled") or finish ("pass-done")
 //	     S let the loader try-send the polled value: "moved polled" | "moved pass-done" | "unshift pass-done"
 //	     After every finished pass a token is posted (GetChannel) and the loader is awaited at afterClosedCheck.
@@ -144,7 +146,24 @@ type c07Sched struct {
 	passLeft int
 	pending  *Thread
 	pendRes  *error
+	taker    *Thread // a consumer blocked in Take()
+	takeVal  *int
+	takeErr  *error
 	broken   bool
+}
+
+// joinTaker waits for the consumer blocked in Take() (a value has just been made available to it).
+func (m *c07Sched) joinTaker() string {
+	r := m.taker.Wait(c07WaitDur())
+	defer func() { m.taker = nil }()
+	switch {
+	case r == "blocked":
+		atomic.AddInt32(&c07Lost, 1)
+		return " take=blocked"
+	case r != "ok":
+		return " take=panic"
+	}
+	return " take=" + c07ShowVal(*m.takeVal, *m.takeErr)
 }
 
 // c07Lost counts "the loader never arrived" / "stranded" events in this process.  The first ones are awaited
@@ -217,7 +236,7 @@ func (m *c07Sched) step(tok string) (out string) {
 	case strings.HasPrefix(tok, "o:"):
 		v := c07Arg(tok)
 		if inpass {
-			if m.pending != nil {
+			if m.pending != nil || m.taker != nil {
 				return "skip"
 			}
 			var res error
@@ -225,12 +244,36 @@ func (m *c07Sched) step(tok string) (out string) {
 			m.pending = m.ctl.Go("producer", func() { res = m.q.Offer(v) })
 			return "pending"
 		}
+		_, before := m.q.VerifState()
 		err := m.q.Offer(v)
 		if err == fpgo.ErrQueueIsFull {
 			_, pc := m.q.VerifState()
 			return "full pool=" + strconv.Itoa(pc)
 		}
-		return c07ShowErr(err)
+		out := c07ShowErr(err)
+		if err == nil && before == 0 && m.taker != nil { // went to the (empty) channel: the blocked consumer gets it
+			out += m.joinTaker()
+		}
+		return out
+	case tok == "B":
+		if inpass || m.taker != nil || cap(m.handle) == 0 || len(m.handle) > 0 {
+			return "skip"
+		}
+		var v int
+		var err error
+		m.takeVal, m.takeErr = &v, &err
+		seen := m.ctl.Reached("consumer", "bcq.notify.beforeSend")
+		m.taker = m.ctl.Go("consumer", func() { v, err = m.q.Take() })
+		// wait until the consumer is inside notifyWorkers (it then needs the lock no more before its receive)
+		deadline := time.Now().Add(c07WaitDur())
+		for m.ctl.Reached("consumer", "bcq.notify.beforeSend") == seen {
+			if time.Now().After(deadline) {
+				m.broken = true
+				return "lost-consumer"
+			}
+			time.Sleep(100 * time.Microsecond)
+		}
+		return "started"
 	case tok == "p":
 		if inpass {
 			return "skip"
@@ -287,6 +330,10 @@ func (m *c07Sched) step(tok string) (out string) {
 		if !room {
 			return m.afterPass("unshift pass-done")
 		}
+		suffix := ""
+		if m.taker != nil { // the channel was empty: the moved value goes to the blocked consumer
+			suffix = m.joinTaker()
+		}
 		if m.passLeft > 0 {
 			if !m.ctl.WaitAt("*", c07PtPolled, c07WaitDur()) {
 				m.broken = true
@@ -294,9 +341,9 @@ func (m *c07Sched) step(tok string) (out string) {
 				return "moved lost-loader"
 			}
 			m.passLeft--
-			return "moved polled"
+			return "moved polled" + suffix
 		}
-		return m.afterPass("moved pass-done")
+		return m.afterPass("moved pass-done" + suffix)
 	}
 	return "bad-op"
 }
@@ -755,6 +802,9 @@ func c07Gen(tier string, rng *rand.Rand, emit func(string)) map[string]interface
 		"sched c=2 b=0: o:1 ; o:2 ; o:3 ; n ; L ; p ; o:4 ; p ; p ; p",
 		"sched c=1 b=5: o:1 ; o:2 ; o:3 ; o:4 ; o:5 ; o:6 ; o:7 ; L ; r ; S ; r ; S ; r ; S ; r ; S ; r ; S ; r ; n",
 		"sched c=3 b=2: o:1 ; o:2 ; o:3 ; o:4 ; r ; o:5 ; o:6 ; L ; S ; o:7 ; S ; r ; r ; r ; r ; L ; S ; S ; r ; r ; r ; n",
+		"sched c=1 b=2: B ; o:1 ; n ; o:2 ; o:3 ; r ; B ; L ; S ; S ; n ; p ; B ; L ; p ; n",
+		"sched c=1 b=3: o:1 ; o:2 ; o:3 ; o:4 ; r ; B ; n ; L ; S ; r ; S ; B ; S ; n ; p",
+		"sched c=2 b=2: B ; B ; L ; o:1 ; B ; o:2 ; o:3 ; o:4 ; o:5 ; r ; r ; B ; L ; S ; S ; p ; p ; n",
 	}
 	for _, d := range directed {
 		emit(d)
@@ -771,8 +821,8 @@ func c07Gen(tier string, rng *rand.Rand, emit func(string)) map[string]interface
 	if thorough {
 		ns = 120
 	}
-	sw := map[string]int{"o": 34, "p": 8, "r": 11, "t": 1, "T": 4, "n": 6, "L": 13, "S": 23}
-	so := []string{"o", "p", "r", "t", "T", "n", "L", "S"}
+	sw := map[string]int{"o": 33, "p": 7, "r": 10, "t": 1, "T": 4, "B": 4, "n": 5, "L": 13, "S": 23}
+	so := []string{"o", "p", "r", "t", "T", "B", "n", "L", "S"}
 	for _, c := range []int{0, 1, 2, 3} {
 		for _, b := range []int{0, 1, 2, 5} {
 			for i := 0; i < ns; i++ {
